@@ -115,6 +115,52 @@ theorem pinsOnly_connectOuts (m : NNet) (map : Array (Option Nat)) : ∀ (l : Li
     · exact absurd h (by simp)
     · exact (pinsOnly_setDriver net _ _ _).trans (pinsOnly_connectOuts m map rest _ st' h)
 
+theorem renumberDpins_size (lines : Array LineD) : ∀ (outs : List (Option Nat)) (k : Nat), (renumberDpins lines outs k).size = lines.size
+  | [], _ => rfl
+  | none :: rest, k => by simp only [renumberDpins]; exact renumberDpins_size lines rest (k + 1)
+  | some l :: rest, k => by simp only [renumberDpins]; rw [renumberDpins_size _ rest (k + 1)]; simp
+
+theorem pinsOnly_densifyNode (net : Net) (v : Nat) : PinsOnly net (densifyNode net v) := by
+  unfold densifyNode
+  split
+  · exact ⟨pinsOnlyN_modify _ _ _ (fun _ => rfl), rfl⟩
+  · exact PinsOnly.refl _
+
+theorem densifyNode_lines_size (net : Net) (v : Nat) : (densifyNode net v).lines.size = net.lines.size := by
+  unfold densifyNode
+  split
+  · exact renumberDpins_size _ _ _
+  · rfl
+
+theorem pinsOnly_foldl_densifyNode : ∀ (vs : List Nat) (net : Net), PinsOnly net (vs.foldl densifyNode net) ∧
+    (vs.foldl densifyNode net).lines.size = net.lines.size
+  | [], net => ⟨PinsOnly.refl _, rfl⟩
+  | v :: vs, net => by
+    have ih := pinsOnly_foldl_densifyNode vs (densifyNode net v)
+    exact ⟨(pinsOnly_densifyNode net v).trans ih.1, ih.2.trans (densifyNode_lines_size net v)⟩
+
+theorem pinsOnly_densify (net : Net) (map : Array (Option Nat)) : PinsOnly net (densify net map) :=
+  (pinsOnly_foldl_densifyNode _ net).1
+theorem densify_lines_size (net : Net) (map : Array (Option Nat)) : (densify net map).lines.size = net.lines.size :=
+  (pinsOnly_foldl_densifyNode _ net).2
+
+/-- when no copied fork has a gap the loop changes nothing -/
+theorem densify_of_dense (net : Net) (map : Array (Option Nat)) (h : needsDensify net map = false) : densify net map = net := by
+  unfold needsDensify at h
+  unfold densify
+  have : ∀ (vs : List Nat), (vs.any fun v => (net.node v).isFork && (net.node v).outs.any (·.isNone)) = false →
+      vs.foldl densifyNode net = net := by
+    intro vs
+    induction vs with
+    | nil => intro _; rfl
+    | cons v vs ih =>
+      intro hv
+      simp only [List.any_cons, Bool.or_eq_false_iff] at hv
+      have : densifyNode net v = net := by unfold densifyNode; simp [hv.1]
+      simp only [List.foldl_cons, this]
+      exact ih hv.2
+  exact this _ h
+
 end KV.Transform
 
 namespace KV.Transform
